@@ -755,6 +755,13 @@ def unit_atoms(t, n, j, T, tag):
         Lt(0.0, j, name='jac_positive' + tag, scale=0.0)]
 
 
+def edge_rule_degrees(h, order):
+    """1-D rule degrees per element order. ALWAYS contains 2*order (order+1 Gauss points = number of nodes on an edge: the 1-D shape
+    table is then SQUARE, so a wrong orientation of the table is not a shape error); thorough adds 2*order+1 and a spread"""
+    ds = [1, 3, 2 * order] + ([5, 9, 2 * order + 1] if h.thorough() else [])
+    return sorted(set(ds))
+
+
 def line_constants(pe1, qr1):
     """exact rationals from the real 1-D tables: W = sum_q w_q, K = sum_q w_q sum_a N_a(s_q)"""
     I = _mods()[1]
@@ -777,7 +784,7 @@ def o7(h):
     h.encoded(M.compute_edge_vectors, M.get_edge_coords, M.get_edge_field, M.get_edge_node_indices, FS.integrate_function_on_edge, FS.integrate_function_on_edges,
               FS.interpolate_nodal_field_on_edge, FS.get_nodal_values_on_edge, I.compute_shapes, I.shape1d, QR.create_quadrature_rule_1D)
     h.bounds('edge node coordinates: all reals with distinct end points (direct call, line elements P1,P2; thorough: P3); triangles with all node coordinates '
-             'unbounded, det J > 0 only, P1 in the three cyclic node orders and P2 scrambled (thorough: P3); 1-D rules of degree 1,3 (thorough: 5,9); '
+             'unbounded, det J > 0 only, P1 in the three cyclic node orders and P2 scrambled (thorough: P3); 1-D rules of degree 1, 3 and 2*order (square 1-D shape table; thorough: also 5, 9, 2*order+1); '
              'edge quadrature points (absolute tolerance): P1 and meshes elevated by the real code, every triangle in [-%g,%g]^2' % (BOX, BOX))
     h.outside(*OUTSIDE, 'divergence theorem for non-constant polynomial fields: reduces to the 1-D ground moments of O2/O3 plus the identities proved here (composition)')
     h.assume_note(COMPOSITION, 'sqrt is encoded by its guarded definition (s >= 0, s*s = a); no denominator is assumed non-zero: jac != 0 is derived from the distinct end points')
@@ -834,7 +841,7 @@ def o7(h):
         pe1 = I.make_parent_element_1d(pe.degree)
         mesh0 = M.Mesh(jnp.zeros((nn, 2)), jnp.array([conn]), None, pe, pe1, {'block': jnp.array([0])})
         sht = I.compute_shapes(pe, qrt.xigauss)
-        for d1 in ((1, 3, 5, 9) if h.thorough() else (1, 3)):
+        for d1 in edge_rule_degrees(h, int(pe.degree)):
             qr1 = QR.create_quadrature_rule_1D(d1)
             W, K = line_constants(pe1, qr1)
             ground(h, 'line_constants[%s,rule1d=%d]' % (label, d1), abs(W - 1) <= Fr(TOL_W) and abs(K - 1) <= 4 * Fr(TOL_W),
@@ -881,7 +888,7 @@ def o7(h):
             ho = M.create_higher_order_mesh_from_simplex_mesh(base, order, useBubbleElement=bubble)
             qrt2 = QR.create_quadrature_rule_on_triangle(1)
             sht = I.compute_shapes(ho.parentElement, qrt2.xigauss)
-            for d1 in ((1, 3, 5, 9) if h.thorough() else (1, 3)):
+            for d1 in edge_rule_degrees(h, order):
                 qr1 = QR.create_quadrature_rule_1D(d1)
                 s1 = pyf(qr1.xigauss)
 
@@ -1199,3 +1206,237 @@ def o9(h):
                 Eq(s0(o[0]), v_mul(j, v_sum([v_mul(w[q], f[q]) for q in range(nq)])), name='integrate_values_eq_jac_sum_w_f'),
                 Eq(s0(o[1]), v_mul(j, v_add(v_mul(W, E[0][0]), v_mul(Sm, T[0]))), name='integrate_function_x_eq_jac_(W_a+S_T)')]
         c.prove('A5surf[values,rule1d=%d]' % d1, spec_v, cap=40, denoms=False, order=('nlsat', 'core'))
+
+
+# ------------------------------------------------------------------------------------------ edge interpolation over the (order, 1-D rule) grid
+@obligation(P, 'O10.edge_interpolation_and_polynomial_flux', cap=280)
+def o10(h):
+    """FunctionSpace.interpolate_nodal_field_on_edge / integrate_function_on_edge over the (element order, 1-D rule degree) grid
+    INCLUDING the combinations with as many Gauss points as edge nodes (square 1-D shape table), symbolic nodal values:
+    value at edge point q = sum_a N_a(s_q) u_(edge node a) with the real 1-D table in its documented (nodes x points)
+    layout; nodal values of ANY polynomial of degree <= order in the edge parameter are reproduced at every edge point;
+    edge integral of the flux u.n of ANY nodal vector field over an affine edge = (T_y,-T_x) . sum_q w_q sum_a N_a(s_q) u_a,
+    whose quadrature of s^k, k <= min(order, rule degree), is exact (ground)"""
+    install_case_split()
+    FS, I, QR, M, S = _mods()
+    h.encoded(FS.interpolate_nodal_field_on_edge, FS.get_nodal_values_on_edge, FS.integrate_function_on_edge, FS.integrate_function_on_edges, M.compute_edge_vectors,
+              M.get_edge_coords, M.create_higher_order_mesh_from_simplex_mesh, I.compute_shapes, I.shape1d, QR.create_quadrature_rule_1D)
+    h.bounds('element orders 1,2 (thorough: 1,2,3) on meshes elevated by the real code; 1-D rule degrees 1, 3, 2*order, 2*order+1 (thorough: 0..2*order+3); nodal values: all reals; '
+             'polynomial coefficients in [-1,1]; edge integral: vertex coordinates unbounded with det J > 0, nodal vector field all reals')
+    h.outside(*OUTSIDE, 'polynomial fluxes on a closed boundary: divergence theorem itself (composition of the identities here with O7 and the ground moments)')
+    h.assume_note(COMPOSITION, 'sqrt by guarded definition; no denominator assumed non-zero')
+    eps = Fr(EPS)
+    pw = lambda x, k: x ** k if k > 0 else Fr(1)
+    conn = [1, 2, 0]
+    base = one_element_mesh(conn)
+    for order in ((1, 2, 3) if h.thorough() else (1, 2)):
+        ho = M.create_higher_order_mesh_from_simplex_mesh(base, order)
+        pe, pe1 = ho.parentElement, ho.parentElement1d
+        nn = int(pe.coordinates.shape[0])
+        econn = [int(v) for v in ho.conns[0]]
+        enodes = [[econn[int(a)] for a in pe.faceNodes[k]] for k in range(3)]      # global node ids along edge k, 1-D parent order
+        sn = pyf(pe1.coordinates)
+        degs = range(0, 2 * order + 4) if h.thorough() else sorted({1, 3, 2 * order, 2 * order + 1})
+        seen = set()
+        for d1 in degs:
+            qr1 = QR.create_quadrature_rule_1D(d1)
+            nq = len(qr1)
+            if nq in seen and d1 not in (2 * order, 2 * order + 1):
+                continue
+            seen.add(nq)
+            s1, w1 = pyf(qr1.xigauss), pyf(qr1.wgauss)
+            Nt = pyf(I.compute_shapes(pe1, qr1.xigauss).values)                    # documented layout [node a][point q]
+            assert len(Nt) == order + 1 and len(Nt[0]) == nq
+            tag = 'P%d,rule1d=%d%s' % (order, d1, ',square' if nq == order + 1 else '')
+            worst = Fr(0)
+            for k in range(0, min(order, d1) + 1):
+                quad = sum(F(w1[q]) * sum(F(Nt[a][q]) * pw(F(sn[a]), k) for a in range(order + 1)) for q in range(nq))
+                worst = max(worst, abs(quad - Fr(1, k + 1)))
+            ground(h, 'edge_quadrature_of_interpolated_monomials[%s]' % tag, worst <= 4 * ULPS * eps,
+                   'max_k<=min(order,degree) |sum_q w_q sum_a N_a(s_q) s_a^k - 1/(k+1)| = %.3g ulp (allowed %g)' % (float(worst / eps), 4 * ULPS), dict(order=order, rule1d=d1))
+            fs0 = FS.FunctionSpace(None, None, None, ho, None, False)
+
+            # (i) any nodal values
+            fu = lambda U, qr1=qr1, fs0=fs0: [FS.interpolate_nodal_field_on_edge(fs0, U, qr1.xigauss, (0, k)) for k in range(3)]
+            smpu = lambda rng, nn=nn: [rng.normal(size=(nn, 2))]
+            c = Case(h, fu, dict(U=smpu(onp.random.default_rng(20))[0]), sampler=smpu, label='interpolate_nodal_field_on_edge ' + tag)
+
+            def spec_u(i, o, enodes=enodes, Nt=Nt, nq=nq, order=order):
+                U = i['U']
+                l, r = [], []
+                for k in range(3):
+                    for q in range(nq):
+                        for cpt in range(2):
+                            l.append(o[k][q, cpt])
+                            r.append(v_sum([v_mul(Nt[a][q], U[enodes[k][a]][cpt]) for a in range(order + 1)]))
+                return [], [Eq(l, r, name='value_at_edge_point_eq_sum_N_a(s_q)_u_a')]
+            c.prove('EI[%s]' % tag, spec_u, cap=30)
+
+            # (ii) nodal values of any polynomial of degree <= order in the edge parameter
+            def fp(cf, qr1=qr1, fs0=fs0, enodes=enodes, sn=sn, nn=nn, order=order):
+                V = jnp.array([[s ** j for j in range(order + 1)] for s in sn])
+                out = []
+                for k in range(3):
+                    U = jnp.zeros((nn, 1)).at[jnp.array(enodes[k]), 0].set(V @ cf)
+                    out.append(FS.interpolate_nodal_field_on_edge(fs0, U, qr1.xigauss, (0, k))[:, 0])
+                return out
+            smpc = lambda rng, order=order: [rng.uniform(-1, 1, size=order + 1)]
+            c = Case(h, fp, dict(c=smpc(onp.random.default_rng(21))[0]), sampler=smpc, label='interpolate_nodal_field_on_edge(polynomial) ' + tag)
+            tolp = 8 * ULPS * EPS * (order + 1)
+
+            def spec_p(i, o, s1=s1, nq=nq, order=order, tolp=tolp):
+                cf = i['c']
+                d = []
+                for k in range(3):
+                    for q in range(nq):
+                        d.append(v_abs(v_sub(o[k][q], v_sum([v_mul(s1[q] ** j, cf[j]) for j in range(order + 1)]))))
+                return [cnd for x in flat(cf) for cnd in (v_le(-1.0, x), v_le(x, 1.0))], [Le(d, tolp, name='polynomial_of_degree_le_order_reproduced_at_edge_points', scale=SC)]
+            c.prove('EI[%s]' % tag, spec_p, cap=30)
+
+            # (iii) edge integral of the flux of any nodal vector field over an affine edge (real elevation, symbolic vertices)
+            if nq > order + 1 and d1 not in (1, 3):
+                continue          # the integral adds nothing over (i) for over-integrated combinations; keep the grid small
+            for k in range(3):
+                def fi(X, U, qr1=qr1, order=order, k=k):
+                    with jax.ensure_compile_time_eval():
+                        m = M.create_higher_order_mesh_from_simplex_mesh(M.mesh_with_coords(base, X), order)
+                    fs = FS.FunctionSpace(None, None, None, m, None, False)
+                    return FS.integrate_function_on_edge(fs, lambda u, x, n: u @ n, U, qr1, (0, k))
+                smpi = tri_sampler(3, conn, extra=(lambda rng, nn=nn: rng.normal(size=(nn, 2)),))
+                exi = smpi(onp.random.default_rng(22))
+                c = Case(h, fi, dict(X=exi[0], U=exi[1]), sampler=smpi, label='integrate_function_on_edge(u.n) %s edge%d' % (tag, k))
+
+                def spec_i(i, o, k=k, enodes=enodes, Nt=Nt, w1=w1, nq=nq, order=order):
+                    X, U = i['X'], i['U']
+                    v, J, det = geom(X, conn)
+                    a, b, cc, T = edge_oracle(v, k)
+                    Nv = [T[1], v_sub(0.0, T[0])]
+                    m = [v_sum([v_mul(F(w1[q]) * F(Nt[aa][q]), U[enodes[k][aa]][cpt]) for q in range(nq) for aa in range(order + 1)]) for cpt in range(2)]
+                    return pos(det), [Eq(s0(o), v_add(v_mul(Nv[0], m[0]), v_mul(Nv[1], m[1])), name='edge_flux_eq_(Ty,-Tx).sum_q_w_q_sum_a_N_a(s_q)_u_a')]
+                c.prove('EI[%s,edge%d]' % (tag, k), spec_i, cap=40, denoms=False, order=('nlsat', 'core'))
+
+
+# ------------------------------------------------------------------------------------------ order elevation of meshes whose coordinates are not float64
+def v_trunc(x):
+    """round toward zero (what astype(int) does), dual: float / z3 real"""
+    import z3
+    if not isinstance(x, z3.ExprRef):
+        return float(math.trunc(x))
+    return z3.ToReal(z3.If(x >= 0, z3.ToInt(x), -z3.ToInt(-x)))
+
+
+def dtype_hook(ctx, eqn, iv):
+    """`convert_element_type` with the dtype carried: float -> integer truncates toward zero (z3 ToInt), float64 -> float32 returns a
+    fresh real within the relative rounding error 2^-24 of its argument (over-approximation: any `unsat` stands, a `sat` is decided
+    by the replay on the real code). Everything else (int -> float, float32 -> float64, concrete arrays) is left to vf.jx."""
+    import z3
+    from .. import jx
+    from ..sym import rat, isz
+    nd, od = onp.dtype(eqn.params['new_dtype']), onp.dtype(eqn.invars[0].aval.dtype)
+    to_int = od.kind == 'f' and nd.kind in 'iu'
+    to_f32 = od == onp.float64 and nd == onp.float32
+    if not (to_int or to_f32) or (jx.all_concrete(iv) and not ctx.ground):
+        return NotImplemented
+
+    def cv(a):
+        if isz(a) and ctx.ground:
+            g = jx.ground_num(ctx, a)
+            if g is not None:
+                a = g
+        if not isz(a):
+            return float(math.trunc(a)) if to_int else rat(float(onp.float32(float(a)))) if ctx.ground else float(onp.float32(float(a)))
+        if to_int:
+            return v_trunc(a)
+        r = ctx.fresh('f32')
+        u = z3.RealVal(1) / (2 ** 24)
+        ctx.add_side(z3.And(r - a <= u * z3.If(a >= 0, a, -a) + z3.RealVal(1) / 2 ** 149, a - r <= u * z3.If(a >= 0, a, -a) + z3.RealVal(1) / 2 ** 149))
+        return r
+    return jx.ew(cv, iv[0])
+
+
+def validate_hooked(h, fn, cj, sampler, label, n=3, rtol=1e-9):
+    """translator validation of a case that needs dtype_hook (vf.jx.validate builds its own hook-free context)"""
+    from .. import jx
+    from ..sym import rat, isz, toz
+    rng = onp.random.default_rng(h.seed)
+    worst = 0.0
+    for _ in range(n):
+        args = [onp.asarray(a, dtype=float) for a in sampler(rng)]
+        real = jax.tree_util.tree_leaves(fn(*[jnp.asarray(a) for a in args]))
+        ctx = jx.Ctx(ground=True)
+        ctx.hooks['convert_element_type'] = dtype_hook
+        outs = jx.eval_jaxpr(ctx, cj.jaxpr, cj.consts, *[jx.ew(lambda v: rat(v), a) for a in args])
+        for o, r in zip(outs, real):
+            for x, y in zip(o.reshape(-1), onp.asarray(r, dtype=float).reshape(-1)):
+                g = jx.ground_num(ctx, toz(x)) if isz(x) else x
+                if g is None:
+                    raise jx.JXError('validation: output did not reduce to a numeral: %s' % x)
+                err = abs(float(g) - y) / (1.0 + abs(y))
+                worst = max(worst, err)
+                if not err <= rtol:
+                    raise jx.JXError('translator validation failed (%s): JX %r vs real %r (inputs %s)' % (label, float(g), y, [a.tolist() for a in args]))
+    h.fact('translator_validation[%s]' % label, True, 'max rel err %.2e on %d ground runs of the symbolic path (dtype-carrying convert_element_type)' % (worst, n), nontrivial=False)
+
+
+@obligation(P, 'O11.elevation_of_non_float64_meshes', cap=280)
+def o11(h):
+    """Mesh.create_higher_order_mesh_from_simplex_mesh when the simplex mesh holds its coordinates in an INTEGER array or in
+    float32: the new edge and interior nodes must still be the affine images of the reference nodes under the map of
+    the element's (integer / float32) vertices, and quadrature points must stay affine -- i.e. the elevated coordinates
+    must not be cast back to the input dtype. `convert_element_type` is encoded with its dtype semantics (truncation /
+    float32 rounding)"""
+    install_case_split()
+    FS, I, QR, M, S = _mods()
+    from .. import jx
+    h.encoded(M.create_higher_order_mesh_from_simplex_mesh, M.create_edges, M.mesh_with_coords, FS.interpolate_to_element_points, I.compute_shapes)
+    h.bounds('one element (thorough: also the 2-element mesh), vertex coordinates free reals in [-%g,%g]^2 cast to int64 (truncation: every integer mesh in the box) resp. to float32 '
+             '(any float32 mesh in the box; rounding over-approximated by a relative error <= 2^-24); elevation to P2 and P3+bubble (thorough: also P3, P2+bubble); '
+             'tolerance %.3g (absolute, box scale)' % (BOX, BOX, TOL_XH))
+    h.outside(*OUTSIDE, 'the exact float32 rounding function (only its error bound is used; a counterexample is always replayed on the real code)')
+    h.assume_note(COMPOSITION, 'float -> int conversion = truncation toward zero (z3 ToInt); float64 -> float32 = fresh value within relative error 2^-24 (+2^-149)')
+    qr = QR.create_quadrature_rule_on_triangle(2)
+    xi = pyf(qr.xigauss)
+    meshes = [('1el', one_element_mesh([1, 2, 0]), [[1, 2, 0]], 3)]
+    if h.thorough():
+        meshes.append(('2el', M.construct_mesh_from_basic_data(jnp.array([[0., 0.], [1., 0.], [1., 1.], [0., 1.]]), jnp.array(TWO_EL_CONNS), {'block': jnp.arange(2)}), TWO_EL_CONNS, 4))
+    for mname, base, conns, nv in meshes:
+        for order, bubble in elevated(h):
+            ho = M.create_higher_order_mesh_from_simplex_mesh(base, order, useBubbleElement=bubble)
+            econns = [[int(v) for v in row] for row in ho.conns]
+            pc = pyf(ho.parentElement.coordinates)
+            vloc = [int(k) for k in ho.parentElement.vertexNodes]
+            sh = I.compute_shapes(ho.parentElement, qr.xigauss)
+            for dt, dname in ((jnp.int64, 'int64'), (jnp.float32, 'float32')):
+                def fn(X, base=base, order=order, bubble=bubble, dt=dt, sh=sh, ne=len(conns)):
+                    with jax.ensure_compile_time_eval():
+                        m = M.create_higher_order_mesh_from_simplex_mesh(M.mesh_with_coords(base, X.astype(dt)), order, useBubbleElement=bubble)
+                    return m.coords, [FS.interpolate_to_element_points(m.coords, sh.values, m.conns[e]) for e in range(ne)]
+                smp = (lambda rng, nv=nv: [rng.uniform(-4, 4, size=(nv, 2))])
+                lab = '%s,%s,%s' % (mname, elem_name(order, bubble), dname)
+                ctx = jx.Ctx()
+                ctx.hooks['convert_element_type'] = dtype_hook
+                c = Case(h, fn, dict(X=smp(onp.random.default_rng(30))[0]), validate=0, ctx=ctx, label='elevate ' + lab)
+                validate_hooked(h, fn, c.cj, smp, 'elevate ' + lab)
+
+                def spec(i, o, econns=econns, pc=pc, vloc=vloc, nv=nv, dname=dname):
+                    XH, pts = o
+                    if getattr(XH, 'dtype', None) != object:
+                        XH = onp.asarray(XH, dtype=onp.float64)          # replay: evaluate the oracle in binary64 whatever dtype the code returned
+                    nodes, points = [], []
+                    for e, ec in enumerate(econns):
+                        v, J, det = geom(XH, [ec[k] for k in vloc])        # the element map of the OUTPUT mesh's own vertices
+                        for a in range(len(pc)):
+                            if a in vloc:
+                                continue
+                            p = affine_point(v, J, pc[a])
+                            nodes += [v_abs(v_sub(XH[ec[a]][0], p[0])), v_abs(v_sub(XH[ec[a]][1], p[1]))]
+                        for q in range(len(xi)):
+                            p = affine_point(v, J, xi[q])
+                            points += [v_abs(v_sub(pts[e][q, 0], p[0])), v_abs(v_sub(pts[e][q, 1], p[1]))]
+                    atoms = [Le(nodes, TOL_XH, name='new_nodes_are_affine_images_of_reference_nodes', scale=SC),
+                             Le(points, TOL_XH, name='quadrature_points_affine', scale=SC)]
+                    if dname == 'int64':
+                        atoms.append(Eq([XH[n][cc] for n in range(nv) for cc in range(2)], [v_trunc(i['X'][n][cc]) for n in range(nv) for cc in range(2)],
+                                        name='vertex_rows_are_the_integer_input_coordinates'))
+                    return box(i['X']), atoms
+                c.prove('ELV[%s]' % lab, spec, cap=40, order=('core',))
